@@ -69,7 +69,7 @@ def r_eager(c):
                 roots.append((f"{r[1]}.{attr}", r[2]))
     cg = reach(m, roots)
     c.units["functions_reachable_from_shape_dtype"] = len(cg)
-    if len(cg) < 20:
+    if len(cg) < 14:
         raise AnalysisError(f"only {len(cg)} functions reachable from shape/dtype properties")
     bad = sorted(q for q in cg if q.startswith(FORBIDDEN_PREFIXES))
     c.check(not bad, "R03-EAGER", "shape/dtype property call graph",
@@ -292,8 +292,8 @@ def _nonneg_proof(m, fd, var, site):
 def r_splice(c):
     m = c.model
     sites = splice_sites(m)
-    if len(sites) < 3:
-        raise AnalysisError(f"only {len(sites)} sequence splices found (floor 3)")
+    if len(sites) < 2:
+        raise AnalysisError(f"only {len(sites)} sequence splices found (floor 2)")
     for mi, fd, var, node in sites:
         why = _nonneg_proof(m, fd, var, node)
         qn = m.qualname(fd).replace("pytato.", "", 1)
@@ -379,8 +379,8 @@ def r_operators(c):
         c.check(pf == pr, "R03-OPERATORS", cname, "same-argument-checks", where,
                 "the forward and the reflected operator validate their arguments "
                 "differently")
-    if n < 8:
-        raise AnalysisError(f"only {n} operator pairs found (floor 8)")
+    if n < 5:
+        raise AnalysisError(f"only {n} operator pairs found (floor 5)")
     # _binary_op: the two broadcast calls differ exactly in the operand order
     bo = ci.methods["_binary_op"]
     calls = [x for x in ast.walk(bo) if isinstance(x, ast.Call)
@@ -701,8 +701,8 @@ def r_axis_total(c):
                         f"no raising test depends on `{a.arg}` in {name} or in the repository "
                         "functions it hands the value to: an axis NumPy rejects is accepted "
                         "when the expression is built", ok_detail=why)
-    if n < 12:
-        raise AnalysisError(f"only {n} axis-taking public functions found (floor 12)")
+    if n < 8:
+        raise AnalysisError(f"only {n} axis-taking public functions found (floor 8)")
 
 
 # ---------------------------------------------------------------------------
@@ -904,15 +904,15 @@ def r_memo(c):
                         f"`@{t}` memoises on {risky}, which can be Python/NumPy scalars: "
                         "1, 1.0, True and 1+0j are one cache key, so the result (e.g. a "
                         "promoted dtype) computed for one of them is returned for the others")
-    if n < 8:
-        raise AnalysisError(f"only {n} memoised functions found (floor 8)")
+    if n < 5:
+        raise AnalysisError(f"only {n} memoised functions found (floor 5)")
 
 
 SPEC = Spec(
     prop="C03",
     rules=[r_eager, r_axis, r_axis_total, r_splice, r_operators, r_slice, r_fold, r_broadcast, r_memo],
-    floors={"R03-EAGER": 70, "R03-AXIS": 15, "R03-SPLICE": 3, "R03-OPERATORS": 40,
-            "R03-SLICE": 5, "R03-FOLD": 10, "R03-MEMO": 8},
+    floors={"R03-EAGER": 54, "R03-AXIS": 15, "R03-SPLICE": 2, "R03-OPERATORS": 30,
+            "R03-SLICE": 3, "R03-FOLD": 10, "R03-MEMO": 7},
     explanation=(
         "Decides structural clauses; the agreement of inferred shapes/dtypes with NumPy's "
         "value-level behaviour is NOT decided. R03-EAGER: for every concrete array "
